@@ -394,6 +394,11 @@ func runCalc(o *vh.Out, c tplm.Compiled, gsx string, text string, wellFormed boo
 		if t.Tok == token.FLOAT {
 			return
 		}
+		if t.Tok == token.INT { // only plain decimal literals (the model's `num` is total; "0x" is an INT token too)
+			if _, err := strconv.ParseUint(t.Lit, 10, 32); err != nil {
+				return
+			}
+		}
 	}
 	impl := guard(func() string {
 		v, err := c.C.ParseExpr(text, nil)
